@@ -18,7 +18,7 @@ func init() {
 	vfRegister("VF_C17_decision", VF_C17_decision)
 }
 
-const vfMenuSize = 14
+const vfMenuSize = 18
 
 type vfOut struct{ text string }
 
@@ -37,7 +37,9 @@ func vfSvc(ctor string, args ...any) input.Service {
 //	4 dependency cycle, 5 shared-on-contextual, 6 missing parameter + service,
 //	7 cycle + missing service + missing parameter, 8 scope + missing references in a decorator,
 //	9/10 shared service with a missing service / parameter, 11/12 cycle / scope defect behind
-//	a missing service in the same list, 13 parameter cycle + missing parameter
+//	a missing service in the same list, 13 parameter cycle + missing parameter,
+//	14/15 a value service whose field / call has a missing service / parameter,
+//	16 valid with parameters only, 17 valid and empty
 func vfMenu(k int) input.Input {
 	shared, contextual := input.ScopeShared, input.ScopeContextual
 	switch k {
@@ -71,6 +73,16 @@ func vfMenu(k int) input.Input {
 		return input.Input{Services: map[string]input.Service{"a": a, "b": b}}
 	case 13: // a parameter cycle next to a missing parameter
 		return input.Input{Params: map[string]any{"p": "%q%", "q": "%p%", "r": "%nope%"}, Services: map[string]input.Service{"svc": vfSvc("NewX")}}
+	case 14: // a service created by a value whose field refers to a missing service
+		v := "&X{}"
+		return input.Input{Services: map[string]input.Service{"svc": {Value: &v, Fields: map[string]any{"F": "@nope"}}}}
+	case 15: // a service created by a value whose call refers to a missing parameter
+		v := "&X{}"
+		return input.Input{Services: map[string]input.Service{"svc": {Value: &v, Calls: []input.Call{{Method: "M", Args: []any{"%nope%"}}}}}}
+	case 16: // valid: parameters only, no service and no decorator
+		return input.Input{Params: map[string]any{"p": 1, "q": "%p%"}}
+	case 17: // valid: nothing at all
+		return input.Input{}
 	case 7: // a cycle together with a missing service and a missing parameter
 		return input.Input{Services: map[string]input.Service{"a": vfSvc("NewA", "@b", "@nope"), "b": vfSvc("NewB", "@a", "%nope%")}}
 	case 8: // shared-on-contextual together with a missing service in a decorator
@@ -88,9 +100,9 @@ func vfMenuClasses(k int) (grammar, mparam, msvc, cycle, scope bool) {
 	switch k {
 	case 1:
 		grammar = true
-	case 2, 10:
+	case 2, 10, 15:
 		mparam = true
-	case 3, 9:
+	case 3, 9, 14:
 		msvc = true
 	case 4:
 		cycle = true
@@ -293,11 +305,12 @@ func VF_C10_contract() {
 	if !envFault && (sc.formatErr || sc.importErr || sc.writeErr) {
 		vfAssert(r.err != nil, "a formatting or write failure fails the build")
 	}
-	if !envFault && aMatched && sc.menu != 0 {
+	valid := sc.menu == 0 || sc.menu == 16 || sc.menu == 17
+	if !envFault && aMatched && !valid {
 		vfAssert(r.err != nil, "a configuration with a grammar, reference, cycle or scope defect is rejected")
 		vfAssert(!strings.Contains(r.stdout, "Generate code"), "a rejected configuration never reaches code generation")
 	}
-	if !envFault && sc.menu == 0 && !sc.formatErr && !sc.importErr && !sc.writeErr {
+	if !envFault && valid && !sc.formatErr && !sc.importErr && !sc.writeErr {
 		vfAssert(r.err == nil, "a valid configuration in a healthy environment is built")
 	}
 	vfReach("C10_contract")
